@@ -220,6 +220,15 @@ pub fn featdigest(tier: Tier, seed: u64) {
             for (kind, msg) in crate::c06_07::deep_case(n, idx) {
                 run.violation(&format!("C07:{}", kind), format!("{} (chain #{} over {} variables)", msg, idx, n), json!({"inner_property": "C07", "inner_case": {"type": "deep", "vars": n, "index": idx}}));
             }
+            // every query on every node of diagrams with 17, 20 and 33 levels (eight formula shapes; parity at 17 and 20)
+            if k < 24 {
+                let (kind, n) = ((k % 8) as usize, [17usize, 20, 33][(k / 8) as usize]);
+                if !(kind == 2 && n > 22) {
+                    for (kd, msg) in crate::c13::deep_fn_case(kind, n, 0) {
+                        run.violation(&format!("C13:{}", kd), format!("{} (formula shape {} over {} variables)", msg, kind, n), json!({"inner_property": "C13", "inner_case": {"type": "deep-fn", "kind": kind, "vars": n, "store": 0, "levels_65_or_more": false}}));
+                    }
+                }
+            }
             if k < 256 {
                 for (kind, msg) in crate::c06_07::reimport_restrict_case(k as TT, 3, 5) {
                     run.violation(&format!("C07:{}", kind), format!("{} (function {:#x})", msg, k), json!({"inner_property": "C07", "inner_case": {"type": "reimport-restrict", "tt": k, "vars": 3, "writer": 5}}));
